@@ -16,6 +16,7 @@ const (
 	SF64   Sort = "F64"
 	SSlice Sort = "Slice"
 	SIface Sort = "Iface"
+	SPBox  Sort = "PBox" // a local scalar/slice variable whose address was taken: the term is the identity of its heap cell
 	SBox   Sort = "Box" // a local fixed-size array that has been sliced: the term is the identity of its heap array
 )
 
